@@ -199,7 +199,7 @@ PROPS = {
     },
     "C17": {
         "modules": ["PgBifrost.Props.C17"],
-        "components": ["pipefault", "kinesis", "s3", "kafka", "rabbit", "retrypolicy", "runner", "clientstop"],
+        "components": ["pipefault", "kinesis", "s3", "kafka", "rabbit", "retrypolicy", "runner", "clientstop", "plumbing"],
         "required_theorems": ["PgBifrost.Props.C17.fault_never_unsafe_ack", "PgBifrost.Props.C17.single_shutdown_handler", "PgBifrost.Props.C17.runner_hands_the_handler_to_every_stage",
                               "PgBifrost.Props.C17.runner_starts_every_stage", "PgBifrost.Props.C17.retry_budget_gives_up", "PgBifrost.Props.C17.retry_policies_give_up",
                               "PgBifrost.Props.C17.retry_policies_complete", "PgBifrost.Props.C17.retry_unset_stop_never_gives_up",
